@@ -158,6 +158,56 @@ def rcEncode (ps : Probs) (ops : List Op) : List UInt8 × Probs :=
   let r := encOps ps Enc.init ops
   ((encFlush r.2).out, r.1)
 
+/-! ### specification decoder for an operation list (round-trip statement)
+
+  What the decoder is asked for, in order: a probability bit in context `ctx`, or a direct bit. The decoder cores are the
+  ones of `Model/RangeDec.lean` (`readInit`, `normalizeL`, `decodeBitL`, `directCore`). -/
+
+inductive Shape where
+  | bit (ctx : Nat)
+  | direct
+  deriving Repr, DecidableEq, Inhabited
+
+def Op.shape : Op → Shape
+  | .bit ctx _ => .bit ctx
+  | .direct _ => .direct
+
+def Op.value : Op → Bool
+  | .bit _ b => b
+  | .direct b => b
+
+/-- Decode one bit per shape, updating the probabilities exactly as the decoder does. -/
+def decodeShapes (ps : Probs) (rc : Rc) (rest : List UInt8) : List Shape → Option (List Bool × Probs × Rc × List UInt8)
+  | [] => some ([], ps, rc, rest)
+  | .bit ctx :: sh =>
+    match decodeBitL rc (ps.getD ctx 0) rest with
+    | none => none
+    | some (b, rc', p', rest') =>
+      match decodeShapes (ps.setIfInBounds ctx p') rc' rest' sh with
+      | none => none
+      | some (bs, r) => some ((b == 1) :: bs, r)
+  | .direct :: sh =>
+    match normalizeL rc rest with
+    | none => none
+    | some (rc1, rest1) =>
+      let r := directCore rc1
+      match decodeShapes ps r.2 rest1 sh with
+      | none => none
+      | some (bs, r') => some ((r.1 == 1) :: bs, r')
+
+/-- `rc_read_init`, the requested bits, then `rc_normalize` + `rc_is_finished` (what LZMA2 chunk ends and the end marker
+    test). Returns the bits, the final probabilities and the unread input. -/
+def rcDecode (ps : Probs) (shapes : List Shape) (bytes : List UInt8) : Option (List Bool × Probs × List UInt8) :=
+  match readInit bytes with
+  | .ok rc rest =>
+    match decodeShapes ps rc rest shapes with
+    | none => none
+    | some (bits, ps', rc', rest') =>
+      match normalizeL rc' rest' with
+      | none => none
+      | some (rc'', rest'') => if rc''.code = 0 then some (bits, ps', rest'') else none
+  | _ => none
+
 /-! ### `rc_encode_dummy`: would the pending symbols (plus the final flush) fit into `outLimit` bytes in total?
 
   State of the dummy run: (low, cache_size, range, cache, out_pos). Returns `true` = does NOT fit (as the C function). -/
